@@ -416,7 +416,9 @@ def check_C06(report, tier, seed, replay=None):
 
 C11_NAMES = ["rule1", "Spam filter", "café", "日本語 ルール", "a:b", "[x]", "with #hash", "x" * 40, "semi;colon", "q\"uote",
              "back\\slash", "UPPER lower", "Filter", "Description", "# leading hash", "tab\tinside", "dots...", "a  b"]
-PRETEXTS = [("# Filter: ", "# Description: "), ("# rule:", "# about:"), ("#F ", "#D "), ("# Name=", "# Desc=")]
+PRETEXTS = [("# Filter: ", "# Description: "), ("# rule:", "# about:"), ("#F ", "#D "), ("# Name=", "# Desc="),
+            # markers are literal text: characters special to regular expressions / format strings mean nothing
+            ("# [rule] ", "# (about) "), ("#* ", "#+ "), ("#%s ", "#{0} "), ("#. ", "#$ "), ("#\\n ", "#\\d ")]
 
 
 def check_C11(report, tier, seed, replay=None):
@@ -563,10 +565,19 @@ def check_C19(report, tier, seed, replay=None):
             acts.append(a)
         mtype = rng.choice(["anyof", "allof"])
         fs = factory.FiltersSet("t")
+        # the filter is created by addfilter, or by updatefilter on an enabled / on a disabled filter
+        mode = ["add", "add", "update", "update-disabled"][i % 4]
+        report.count("created-by:" + mode)
         try:
-            fs.addfilter("f", conds, acts, mtype)
+            if mode == "add":
+                fs.addfilter("f", conds, acts, mtype)
+            else:
+                fs.addfilter("f", [("Subject", ":is", "old")], [("keep",)])
+                if mode == "update-disabled":
+                    fs.disablefilter("f")
+                fs.updatefilter("f", "f", conds, acts, mtype)
         except Exception as e:  # noqa
-            report.violation("addfilter raised %s: %s for %r" % (type(e).__name__, e, (conds, acts)), {"property": "C19", "conditions": repr(conds)})
+            report.violation("addfilter/updatefilter raised %s: %s for %r" % (type(e).__name__, e, (conds, acts)), {"property": "C19", "conditions": repr(conds)})
             continue
         classes = set()
         for c in conds:
@@ -582,7 +593,7 @@ def check_C19(report, tier, seed, replay=None):
         neg = any(isinstance(c[0], str) and (c[0].startswith("not") or any(isinstance(x, str) and x.startswith(":not") for x in c)) for c in conds)
         report.case((tuple(map(repr, conds)), tuple(map(repr, acts)), mtype), len(conds) > 1 or neg,
                     {"conditions": repr(conds)[:200], "actions": repr(acts)[:100], "matchtype": mtype})
-        desc = {"property": "C19", "conditions": repr(conds), "actions": repr(acts), "matchtype": mtype}
+        desc = {"property": "C19", "conditions": repr(conds), "actions": repr(acts), "matchtype": mtype, "created_by": mode}
         want_c = [norm_cond(c) for c in conds]
         want_a = [tuple(a) for a in acts]
 
@@ -599,11 +610,14 @@ def check_C19(report, tier, seed, replay=None):
             return None
         complaint = None
         try:
-            complaint = readback(fs, "original set")
+            complaint = readback(fs, "original set" + (" (updated while disabled)" if mode == "update-disabled" else ""))
             if complaint is None:
+                if mode == "update-disabled" and fs.is_filter_disabled("f") is not True:
+                    complaint = "filter updated while disabled is no longer disabled"
                 fs.disablefilter("f")
-                complaint = readback(fs, "while disabled")
+                complaint = complaint or readback(fs, "while disabled")
                 fs.enablefilter("f")
+                complaint = complaint or readback(fs, "after enabling again")
             if complaint is None:
                 p = Parser()
                 text = F.render(fs)
